@@ -336,6 +336,7 @@ def run(chk):
     _sideowner_rule(chk, prog)
     _markevent_rule(chk, prog)
     _regdir_rule(chk, prog)
+    _unregister_rule(chk, prog)
 
 
 def _solewaiter_rule(chk, prog):
@@ -706,3 +707,41 @@ def _regdir_rule(chk, prog):
                                   of.name, c.loc, sorted(x.replace("JANET_STREAM_", "") for x in have), d, d,
                                   sorted(x.replace("JANET_STREAM_", "") for x in masks[d])))
     chk.floor(rule, 8, n)
+
+
+def _unregister_rule(chk, prog):
+    """Registering a stream hands the poller a pointer to the stream object.  With epoll the registration lives as
+    long as the open file DESCRIPTION, which can outlive the descriptor the stream closes (ev/to-file duplicates it, a
+    child inherits it), so closing the descriptor is not enough: without an explicit EPOLL_CTL_DEL the kernel reports
+    a later event with a pointer to a stream that the collector has freed."""
+    rule = "C16-UNREGISTER"
+    chk.rule(rule, "the function that closes a stream's descriptor first takes back what registration gave the poller (EPOLL_CTL_DEL before close; the poll back end's table entry)")
+    ev = prog.tus["ev.c"]
+    reg = next((f for f in ev.funcs.values() if f.name == "janet_register_stream_impl"), None)
+    cl = next((f for f in ev.funcs.values() if f.name == "janet_stream_close_impl"), None)
+    if cl is None:
+        raise AnalysisBroken("janet_stream_close_impl not found")
+    chk.analysed(cl)
+    chk.instance(rule)
+    closes = cl.calls("close")
+    if not closes:
+        raise AnalysisBroken("janet_stream_close_impl: close(2) call not found")
+    order = {id(x): i for i, x in enumerate(cl.nodes)}
+    if reg is not None and reg.calls("epoll_ctl"):
+        chk.analysed(reg)
+        dels = [c for c in cl.calls("epoll_ctl") if any("EPOLL_CTL_DEL" in y.macro_names() or y.v == 2 for y in c.args[1].walk())]
+        if dels and all(order[id(d)] < order[id(c)] for d in dels[:1] for c in closes):
+            chk.ok(rule, "janet_stream_close_impl: EPOLL_CTL_DEL before close")
+        else:
+            chk.violation(rule, "ev.c", "janet_stream_close_impl", "no-epoll-del", closes[0].loc,
+                          "janet_register_stream_impl gives epoll a pointer to the stream (ev.data.ptr), but closing only calls close(2): "
+                          "when another descriptor still refers to the same open file description (ev/to-file, an inherited fd) the "
+                          "registration survives, and after the stream has been collected the next event dereferences freed memory")
+    else:
+        # poll back end: the table entry is the registration
+        if any(x.k == "asg" and any(y.k == "mem" and y.field == "streams" and y.rec == "JanetVM" for y in x.kids[0].walk()) for x in cl.nodes):
+            chk.ok(rule, "janet_stream_close_impl: the stream's slot in janet_vm.streams is swapped out")
+        else:
+            chk.violation(rule, "ev.c", "janet_stream_close_impl", "no-table-removal", closes[0].loc,
+                          "closing a stream leaves its entry in janet_vm.streams")
+    chk.floor(rule, 1)
